@@ -151,6 +151,13 @@ func (c *provCtx) eval(v ssa.Value) []pattern {
 		if f := com.StaticCallee(); f != nil {
 			n := shortName(f)
 			switch n {
+			case "(*strings.Builder).String":
+				// a string collected piece by piece: like `s += piece` in a loop
+				out := []pattern{{{Kind: "const", S: ""}}}
+				for _, w := range builderWrites(com.Args[0]) {
+					out = append(out, c.eval(w)...)
+				}
+				return dedupPatterns(out)
 			case "(*regexp.Regexp).String":
 				return []pattern{{{Kind: "regexp", S: c.describe(com.Args[0])}}}
 			case "(*net/url.URL).String":
@@ -640,4 +647,38 @@ func splitFormat(f string) (pieces []string, verbs int, plain bool) {
 	}
 	pieces = append(pieces, cur)
 	return pieces, verbs, plain
+}
+
+// builderWrites: the values written into the strings.Builder that v points to (WriteString,
+// WriteByte/WriteRune are ignored), anywhere in the function tree that can see the builder.
+func builderWrites(v ssa.Value) []ssa.Value {
+	root := cellRootOf(v)
+	var top *ssa.Function
+	switch x := root.(type) {
+	case *ssa.Alloc:
+		top = x.Parent()
+	case *ssa.Parameter:
+		top = x.Parent()
+	default:
+		return nil
+	}
+	var out []ssa.Value
+	for _, g := range treeOf(top) {
+		for _, b := range g.Blocks {
+			for _, in := range b.Instrs {
+				c, ok := in.(*ssa.Call)
+				if !ok {
+					continue
+				}
+				f := c.Common().StaticCallee()
+				if f == nil || rawShortName(f) != "(*strings.Builder).WriteString" || len(c.Common().Args) != 2 {
+					continue
+				}
+				if cellRootOf(c.Common().Args[0]) == root {
+					out = append(out, c.Common().Args[1])
+				}
+			}
+		}
+	}
+	return out
 }
